@@ -209,6 +209,73 @@ fn fuzz_big(ctx: &Ctx, case: u64, acc: &mut Acc) -> Verdict {
     fuzz(ctx, case, acc, Mode::BigItems)
 }
 
+/// Counters that wrap: the u8 epoch token (bumped by every idle transition, identity change, leave),
+/// the u8 probe number, incarnations near u16::MAX. Every bump site is driven past 256 in several mixes.
+fn wrap(ctx: &Ctx, case: u64, acc: &mut Acc) -> Verdict {
+    let mut r = Rng64::derive(ctx.seed, 0x3A9, case);
+    let mut cfg = Cfg::simple();
+    cfg.notify_down = r.chance(1, 2);
+    cfg.rda = 1;
+    let pol = if r.chance(1, 2) { crate::ids::Renew::Bump } else { crate::ids::Renew::None };
+    let mut node = Node::new(Id::with(0, 0, pol), cfg, crate::codecs::CodecKind::Hand, crate::bcast::HdlCfg::disabled(), r.next());
+    let peer = Id::new(1, 0);
+    let mut calls = 0u64;
+    let mut probe: Option<Timer<Id>> = None;
+    let mut go = |node: &mut Node, op: Op, probe: &mut Option<Timer<Id>>| -> Verdict {
+        let rec = node.call(op);
+        for (t, _) in rec.scheds() {
+            if let Timer::ProbeRandomMember(_) = t {
+                *probe = Some(t.clone());
+            }
+        }
+        panic_verdict(&rec)
+    };
+    let total = 300 + r.below(400);
+    // a prefix of `pre` bumps of one kind, then the remaining ones of another kind: puts the 256th bump on each site
+    let pre = r.below(300);
+    let kinds = [r.below(4), r.below(4)];
+    for i in 0..total {
+        let kind = if i < pre { kinds[0] } else { kinds[1] };
+        match kind {
+            0 => {
+                // flap the lone peer: Active then Idle
+                let inc = (i % 60_000) as u16;
+                go(&mut node, Op::Apply(vec![Member::new(Id::new(1, (i % 200) as u8), inc, State::Alive)], true), &mut probe)?;
+                go(&mut node, Op::Apply(vec![Member::new(Id::new(1, (i % 200) as u8), inc, State::Down)], true), &mut probe)?;
+                go(&mut node, Op::Timer(Timer::RemoveDown(Id::new(1, (i % 200) as u8))), &mut probe)?;
+                calls += 3;
+            }
+            1 => {
+                let me = node.id();
+                go(&mut node, Op::ChangeId(Id::with(0, me.gen.wrapping_add(1), pol)), &mut probe)?;
+                calls += 1;
+            }
+            2 => {
+                go(&mut node, Op::Leave, &mut probe)?;
+                go(&mut node, Op::Reuse, &mut probe)?;
+                calls += 2;
+            }
+            _ => {
+                // probe rounds against a silent peer (probe number wraps; suspicion at rising incarnations)
+                go(&mut node, Op::Apply(vec![Member::new(peer, u16::MAX - (i % 3) as u16, State::Alive)], true), &mut probe)?;
+                if let Some(t) = probe.take() {
+                    go(&mut node, Op::Timer(t), &mut probe)?;
+                }
+                calls += 2;
+            }
+        }
+        if node.poisoned {
+            break;
+        }
+    }
+    acc.tally("calls_under_catch_unwind", calls);
+    acc.tally("wrap_cases", 1);
+    acc.max("epoch_bumps_in_one_case", total);
+    acc.nontrivial(fp(&("wrap", case, total, pre, kinds)));
+    acc.sample(|| json!({"workload": "wrap", "bumps": total, "first_kind": kinds[0], "first_kind_count": pre, "second_kind": kinds[1]}));
+    Ok(())
+}
+
 /// chaos net with panics as the verdict
 fn chaos_c06(ctx: &Ctx, case: u64, acc: &mut Acc) -> Verdict {
     let mut opts = chaos::default_opts(Arm::default(), ctx);
@@ -461,6 +528,7 @@ pub fn check() -> Check {
             Workload { name: "fuzz_plain", f: fuzz_plain, quick: 6_000, thorough: 600_000, flav: Flav::Both },
             Workload { name: "fuzz_big", f: fuzz_big, quick: 600, thorough: 30_000, flav: Flav::Both },
             Workload { name: "chaos", f: chaos_c06, quick: 4_000, thorough: 400_000, flav: Flav::Both },
+            Workload { name: "wrap", f: wrap, quick: 1_600, thorough: 80_000, flav: Flav::Both },
             Workload { name: "feed_wide", f: feed_overflow, quick: 2, thorough: 6, flav: Flav::Both },
             Workload { name: "config_ctor", f: config_ctor, quick: 20, thorough: 65_536, flav: Flav::Both },
         ],
